@@ -168,6 +168,9 @@ def run(ctx):
     cov["instruction_level"]["unspecified_opcodes_seen"] = cov_v["vmval"].get("unspecified_seen", cov_v["vmval"].get("unspecified"))
     cov["traces_validated_against_impl"] = cov_v["traces_validated_against_impl"]
     cov["states"] += cov_v["states"]; cov["transitions"] += cov_v["transitions"]
+    # generator exploration over the widened program universe (feature flags of lib/gen_gx.py): engines against the prescription
+    from props import gx_part
+    cov["generator_exploration"] = gx_part.run_part(ctx, "C02")
     # the standard library (NanoLib.tla): case table + laws + programs on native, NanoVM, nano_vm and the evaluator
     from props import c02_lib
     lstats, lsamples, lcov = c02_lib.run_lib(ctx)
